@@ -1163,9 +1163,13 @@ class LayoutSwapper(LayoutManager):
                 return False
 
             # If the distribution is the same then the communicators should
-            # also be the same
+            # also be the same and should distribute the same dimensions
             if (nDim1 == nDim2):
-                return all([c in handler1.communicators for c in handler2.communicators])
+                comms1 = list(handler1.communicators)
+                dims1 = handler1.getLayout(layout1).dims_order
+                dims2 = handler2.getLayout(layout2).dims_order
+                return all([c in comms1 and dims1[comms1.index(c)] == dims2[j]
+                            for j, c in enumerate(handler2.communicators)])
 
             # Ensure that 2 is the larger handler to facilitate steps
             if (nDim1 > nDim2):
